@@ -30,7 +30,7 @@ PY
  run)
   prop="$3"; tier="${4:-quick}"
   cd /repo && git diff --quiet || { echo "/repo not clean"; exit 2; }
-  git -C /repo apply "$dir/patch.diff" 2>/dev/null || git -C /repo apply -3 "$dir/patch.diff" 2>/dev/null || { git -C /repo checkout -- . ; git -C /repo reset -q; echo "PATCH DOES NOT APPLY"; exit 1; }
+  git -C /repo apply "$dir/patch.diff" 2>/dev/null || git -C /repo apply -3 "$dir/patch.diff" 2>/dev/null || { git -C /repo reset -q; git -C /repo checkout -- . ; echo "PATCH DOES NOT APPLY"; exit 1; }
   git -C /repo reset -q
   if grep -rq "^<<<<<<<" /repo/dreye; then git -C /repo checkout -- .; echo "PATCH CONFLICTS"; exit 1; fi
   (cd "$VERIF" && ./check "$prop" --tier "$tier" 2>&1 | tail -${TAILN:-4})
